@@ -621,6 +621,65 @@ def processExpired (g : Graph) (s : State) (x : Proxy) (tr : Bool) : State :=
     { s1 with expLog := s1.expLog ++ [if tr then mkEvent s x tr else closeEvent g s0 s1 x (mkEvent s x tr)] }
   else s1
 
+/-- `_process_message_check`: whether the message is dropped (a transient object skips the checks) -/
+def pmSkip (x : Proxy) (tr : Bool) (flag : Flag) (sn : Nat) (msg : String) : Bool :=
+  -- (repaired code only, see `ExpFlags.jobMsgExpires`: the `expired` message is the scheduler's own)
+  (msg == "expired" && flag != .internal && !ExpFlags.jobMsgExpires) ||
+  -- received messages of old jobs
+  (!tr && flag == .received && sn != x.submitNum) ||
+  -- a waiting task with a retry lined up ignores (late) messages; the scheduler's own `expired` is excepted
+  (!tr && x.status == .waiting && msg != "expired" && x.live && (x.subTry > 0 || x.execTry > 0))
+
+/-- complete the output that corresponds to the message (failure outputs are completed later) -/
+def pmComplete (g : Graph) (x : Proxy) (msg : String) : Proxy × Option Bool :=
+  if msg == "submit-failed" || msg == "failed" then (x, some false) else setComplete g x msg
+
+/-- `get_incomplete_implied`: outputs implied by the message that are not complete yet -/
+def impliedOf (x : Proxy) (msg : String) : List String :=
+  (if msg == "succeeded" || msg == "failed" then ["submitted", "started"]
+   else if msg == "started" then ["submitted"] else []).filter fun m => !x.isDone m
+
+def maxExecTry (g : Graph) (n : String) : Nat := match g.task? n with | some t => t.execRetries | none => 0
+def maxSubTry (g : Graph) (n : String) : Nat := match g.task? n with | some t => t.subRetries | none => 0
+
+/-- definitive failure / submit failure: status, output, children -/
+def pmFinal (g : Graph) (s : State) (p : Int) (n : String) (x : Proxy) (tr : Bool) (st : Status) (out : String) :
+    State :=
+  let y := x.reset (status := some st)
+  let y := if x.status != st then (setComplete g y out).1 else y
+  spawnChildren g (store s y tr) p n out tr
+
+/-- the part of `process_message` that follows the implied outputs: one branch per kind of message -/
+def pmDispatch (g : Graph) (s : State) (p : Int) (n : String) (flag : Flag) (msg : String)
+    (completed : Option Bool) (x : Proxy) (tr : Bool) : State × Bool :=
+  if msg == "started" then
+    if flag == .received && x.status.rank > Status.running.rank then (s, true) else
+    -- submission was successful: the submission try number is reset
+    (spawnChildren g (store s { (x.reset (status := some .running)) with subTry := 0 } tr) p n "started" tr, false)
+  else if msg == "succeeded" then
+    (spawnChildren g (store s (x.reset (status := some .succeeded)) tr) p n "succeeded" tr, false)
+  else if msg == "expired" then
+    (processExpired g s x tr, false)
+  else if msg == "failed" then
+    if flag == .received && x.status.rank > Status.failed.rank then (s, true) else
+    if x.timers && x.execTry < maxExecTry g n then
+      -- an execution retry is lined up: back to waiting behind a retry xtrigger
+      (store s { (x.reset (status := some .waiting)) with execTry := x.execTry + 1, retryWait := true } tr, false)
+    else (pmFinal g s p n x tr .failed "failed", false)
+  else if msg == "submit-failed" then
+    if flag == .received && x.status.rank > Status.submitFailed.rank then (s, true) else
+    if x.timers && x.subTry < maxSubTry g n then
+      (store s { (x.reset (status := some .waiting)) with subTry := x.subTry + 1, retryWait := true } tr, false)
+    else (pmFinal g s p n x tr .submitFailed "submit-failed", false)
+  else if msg == "submitted" then
+    if flag == .received && x.status.rank ≥ Status.submitted.rank then (s, true) else
+    let s := if x.status == .preparing then
+        store s ((x.reset (status := some .submitted)).reset (queued := some false)) tr else s
+    (spawnChildren g s p n "submitted" tr, false)
+  else if completed == some true then
+    (spawnChildren g s p n msg tr, false)
+  else (s, false)
+
 /-- `process_message` for one (non-forced) message; returns the new state and whether a poll is
 requested.  `fuel` bounds the implied-output recursion (depth ≤ 3). -/
 def processMessage (g : Graph) : Nat → State → Int → String → Flag → Nat → String → State × Bool
@@ -629,67 +688,14 @@ def processMessage (g : Graph) : Nat → State → Int → String → Flag → N
     match lookup s p n with
     | none => (s, false)
     | some (x, tr) =>
-      -- (repaired code only, see `ExpFlags.jobMsgExpires`: the `expired` message is the scheduler's own)
-      if msg == "expired" && flag != .internal && !ExpFlags.jobMsgExpires then (s, false) else
-      -- _process_message_check (a transient object skips the checks)
-      if !tr && flag == .received && sn != x.submitNum then (s, false) else
-      -- a waiting task with a retry lined up ignores (late) messages
-      if !tr && x.status == .waiting && msg != "expired" && x.live && (x.subTry > 0 || x.execTry > 0) then (s, false) else
-      -- complete the corresponding output
-      let (x, completed) :=
-        if msg == "submit-failed" || msg == "failed" then (x, some false)
-        else setComplete g x msg
-      let s := store s x tr
+      if pmSkip x tr flag sn msg then (s, false) else
+      let r := pmComplete g x msg
+      let s := store s r.1 tr
       -- implied outputs first
-      let implied : List String :=
-        (if msg == "succeeded" || msg == "failed" then ["submitted", "started"]
-         else if msg == "started" then ["submitted"] else []).filter fun m => !x.isDone m
-      let s := implied.foldl (fun st m => (processMessage g fuel st p n .internal sn m).1) s
+      let s := (impliedOf r.1 msg).foldl (fun st m => (processMessage g fuel st p n .internal sn m).1) s
       match lookup s p n with
       | none => (s, false)
-      | some (x, tr) =>
-      if msg == "started" then
-        if flag == .received && x.status.rank > Status.running.rank then (s, true) else
-        -- submission was successful: the submission try number is reset
-        let s := store s { (x.reset (status := some .running)) with subTry := 0 } tr
-        (spawnChildren g s p n "started" tr, false)
-      else if msg == "succeeded" then
-        let s := store s (x.reset (status := some .succeeded)) tr
-        (spawnChildren g s p n "succeeded" tr, false)
-      else if msg == "expired" then
-        (processExpired g s x tr, false)
-      else if msg == "failed" then
-        if flag == .received && x.status.rank > Status.failed.rank then (s, true) else
-        let maxTry := match g.task? n with | some t => t.execRetries | none => 0
-        if x.timers && x.execTry < maxTry then
-          -- an execution retry is lined up: back to waiting behind a retry xtrigger
-          let y := { (x.reset (status := some .waiting)) with execTry := x.execTry + 1, retryWait := true }
-          (store s y tr, false)
-        else
-        -- definitive failure
-        let y := x.reset (status := some .failed)
-        let (y, _) := if x.status != .failed then setComplete g y "failed" else (y, none)
-        let s := store s y tr
-        (spawnChildren g s p n "failed" tr, false)
-      else if msg == "submit-failed" then
-        if flag == .received && x.status.rank > Status.submitFailed.rank then (s, true) else
-        let maxTry := match g.task? n with | some t => t.subRetries | none => 0
-        if x.timers && x.subTry < maxTry then
-          let y := { (x.reset (status := some .waiting)) with subTry := x.subTry + 1, retryWait := true }
-          (store s y tr, false)
-        else
-        let y := x.reset (status := some .submitFailed)
-        let (y, _) := if x.status != .submitFailed then setComplete g y "submit-failed" else (y, none)
-        let s := store s y tr
-        (spawnChildren g s p n "submit-failed" tr, false)
-      else if msg == "submitted" then
-        if flag == .received && x.status.rank ≥ Status.submitted.rank then (s, true) else
-        let s := if x.status == .preparing then
-            store s ((x.reset (status := some .submitted)).reset (queued := some false)) tr else s
-        (spawnChildren g s p n "submitted" tr, false)
-      else if completed == some true then
-        (spawnChildren g s p n msg tr, false)
-      else (s, false)
+      | some (x, tr) => pmDispatch g s p n flag msg r.2 x tr
 
 /-- group queued messages by task id in order of first arrival (`dict.setdefault`) -/
 def groupMsgs (q : List Msg) : List ((Int × String) × List Msg) :=
